@@ -15,6 +15,9 @@ import (
 	"path/filepath"
 	"regexp"
 	"strings"
+	"sync"
+	"sync/atomic"
+	"time"
 
 	"verif/internal/dbgen"
 	"verif/internal/ev"
@@ -116,6 +119,12 @@ func c20Bodies() []c20Body {
 			err := e.H.IndexedSelect("zw", "zw_v", func(r sqlittle.Row) { rows = append(rows, RowS(CopyRow(r))); onRow() }, "k", "s")
 			return fmt.Sprint(rows, err)
 		}},
+		{"Driver(SELECT * FROM dq)", func(e *Env, onRow func()) string {
+			// through the database/sql driver's statement on this participant's handle: * is expanded per file
+			var rows []string
+			err := driverQueryCB(e.H, "SELECT * FROM dq", func(row []interface{}) bool { rows = append(rows, RowS(row)); onRow(); return false }, nil)
+			return fmt.Sprint(rows, err)
+		}},
 		{"ScanRange(t2_c)", func(e *Env, onRow func()) string {
 			e.D.RLock()
 			defer e.D.RUnlock()
@@ -136,6 +145,8 @@ type c20Part struct {
 	resume chan struct{}
 	done   bool
 	result []string
+	// blocked: did not come back to the scheduler after it was resumed
+	blocked bool
 }
 
 // T1Alt / T2Alt: tables and indexes with the SAME NAMES as T1 / T2 but other
@@ -205,6 +216,16 @@ func c20Twins() ([]byte, []byte, error) {
 				return nil, nil, fmt.Errorf("%s: %v", st, err)
 			}
 		}
+		// a table of the same name in both files, with its columns in another order: the same statement text means
+		// something else in each file
+		dq := "CREATE TABLE dq (a, b, c); INSERT INTO dq VALUES ('a1', 'b1', 'c1'), ('a2', 'b2', 'c2')"
+		if i == 1 {
+			dq = "CREATE TABLE dq (c, a, b); INSERT INTO dq VALUES ('c1', 'a1', 'b1'), ('c2', 'a2', 'b2')"
+		}
+		if err := l.Exec(dq); err != nil {
+			l.Close()
+			return nil, nil, err
+		}
 		out[i] = l.Serialize()
 		l.Close()
 	}
@@ -233,6 +254,29 @@ func c20Images() ([]byte, []byte) {
 		panic(err)
 	}
 	return ia.Bytes, ib.Bytes
+}
+
+// c20Blocked counts the steps in which a participant did not come back to the scheduler (it waits for another
+// participant outside the hooked operations)
+var c20Blocked atomic.Int64
+var c20Once sync.Once
+
+// c20Recv waits for a participant's next scheduling point for at most the given number of 20 ms ticks (counted, not
+// measured: a stopped process does not use them up)
+func c20Recv(ch chan string, ticks int) (string, bool) {
+	select {
+	case ev := <-ch:
+		return ev, true
+	default:
+	}
+	for t := 0; t < ticks; t++ {
+		select {
+		case ev := <-ch:
+			return ev, true
+		case <-time.After(20 * time.Millisecond):
+		}
+	}
+	return "", false
 }
 
 func c20Execute(c *mc.Ctx, imgs [][]byte, plan [][]int, bodies []c20Body) ([][]string, []string) {
@@ -272,10 +316,53 @@ func c20Execute(c *mc.Ctx, imgs [][]byte, plan [][]int, bodies []c20Body) ([][]s
 	last := -1
 	for {
 		var enabled []int
+		waiting := 0
 		for i, p := range parts {
-			if !p.done {
+			if p.blocked {
+				// has it arrived at a scheduling point meanwhile?
+				if ev, ok := c20Recv(p.yield, 2); ok {
+					p.blocked = false
+					trace = append(trace, fmt.Sprintf("g%d:%s", i, ev))
+					if ev == "done" {
+						p.done = true
+					}
+				} else {
+					waiting++
+				}
+			}
+			if !p.done && !p.blocked {
 				enabled = append(enabled, i)
 			}
+		}
+		if len(enabled) == 0 && waiting > 0 {
+			// everybody waits: either one of them arrives, or this is a deadlock
+			arrived := false
+			for round := 0; round < 600 && !arrived; round++ {
+				for i, p := range parts {
+					if !p.blocked {
+						continue
+					}
+					if ev, ok := c20Recv(p.yield, 5); ok {
+						p.blocked = false
+						arrived = true
+						trace = append(trace, fmt.Sprintf("g%d:%s", i, ev))
+						if ev == "done" {
+							p.done = true
+						}
+						break
+					}
+				}
+			}
+			if !arrived {
+				for _, p := range parts {
+					if p.blocked {
+						p.result = append(p.result, "<waits forever: every participant is blocked>")
+						p.done = true
+					}
+				}
+				trace = append(trace, "<deadlock>")
+			}
+			continue
 		}
 		if len(enabled) == 0 {
 			break
@@ -297,7 +384,15 @@ func c20Execute(c *mc.Ctx, imgs [][]byte, plan [][]int, bodies []c20Body) ([][]s
 		i := enabled[ch]
 		last = i
 		parts[i].resume <- struct{}{}
-		ev := <-parts[i].yield
+		ev, ok := c20Recv(parts[i].yield, 100)
+		if !ok {
+			// the participant waits for something another participant has to do (a wait the scheduler does not see):
+			// it is taken out of the enabled set until it arrives at its next scheduling point
+			parts[i].blocked = true
+			c20Blocked.Add(1)
+			trace = append(trace, fmt.Sprintf("g%d:<blocked>", i))
+			continue
+		}
 		trace = append(trace, fmt.Sprintf("g%d:%s", i, ev))
 		if ev == "done" {
 			parts[i].done = true
@@ -311,7 +406,7 @@ func c20Execute(c *mc.Ctx, imgs [][]byte, plan [][]int, bodies []c20Body) ([][]s
 }
 
 func runC20(r *ev.Run) {
-	r.Rule = "interleavings: 2 goroutines (3 thorough), each with its own handle (same image / different images with different page sizes / twin images with identical definitions, one in the legacy file format where DESC is ignored), each running 1-2 operations out of {Select, IndexedSelect, IndexedSelectEq, SelectRowid+Columns, PKSelect+Schema, ScanRange}; scheduling points before every pager call (lock, unlock, page read) and in every row callback; every interleaving with <=2 preemptions (3 thorough); oracle: every operation returns exactly its solo result. pool histories: every sequence of <=5 (6 thorough) database/sql operations on one pool (two result sets open at once, read alternately, failing statements and Exec in between): every result set returns what its query returns alone. handle life cycles on real files: participants {open, select, close}, {open, select, close, close again, select after close}, {open, close, open, select, close} on the same or on different files, steps = whole API calls, every interleaving of two (three thorough) participants: every step returns what it returns alone; and the file behind a path replaced by rename while handles are open (every interleaving of two open/select/close participants with the replacement): every select answers from the file its handle opened. race pass (a dynamic detector, not exhaustive): the same bodies on 8 goroutines with their own handles on 2 real files plus a database/sql pool used from 4 goroutines, free-running under -race; any report is a violation. non-trivial = executions with at least one preemption"
+	r.Rule = "interleavings: 2 goroutines (3 thorough), each with its own handle (same image / different images with different page sizes / twin images with identical definitions, one in the legacy file format where DESC is ignored), each running 1-2 operations out of {Select, IndexedSelect, IndexedSelectEq, SelectRowid+Columns, PKSelect+Schema, ScanRange, the database/sql driver's SELECT * on a table whose columns are in another order in the twin file}; scheduling points before every pager call (lock, unlock, page read) and in every row callback; every interleaving with <=2 preemptions (3 thorough); oracle: every operation returns exactly its solo result (a participant that waits for another one outside the hooked operations leaves the enabled set until it is back; all waiting = deadlock = violation). pool histories: every sequence of <=5 (6 thorough) database/sql operations on one pool (two result sets open at once, read alternately, failing statements and Exec in between): every result set returns what its query returns alone. handle life cycles on real files: participants {open, select, close}, {open, select, close, close again, select after close}, {open, close, open, select, close} on the same or on different files, steps = whole API calls, every interleaving of two (three thorough) participants: every step returns what it returns alone; and the file behind a path replaced by rename while handles are open (every interleaving of two open/select/close participants with the replacement): every select answers from the file its handle opened. race pass (a dynamic detector, not exhaustive): the same bodies on 8 goroutines with their own handles on 2 real files plus a database/sql pool used from 4 goroutines, free-running under -race; any report is a violation. non-trivial = executions with at least one preemption"
 	poolHistories(r, "C20")
 	bodies := c20Bodies()
 	imgA, imgB := c20Images()
@@ -363,7 +458,7 @@ func runC20(r *ev.Run) {
 	// the twins: same definitions, legacy format (C) and format 4 (D); the bodies that touch their tables
 	twin := []int{}
 	for i, b := range bodies {
-		if strings.Contains(b.name, "(z") {
+		if strings.Contains(b.name, "(z") || strings.Contains(b.name, "FROM dq") {
 			twin = append(twin, i)
 		}
 	}
@@ -402,6 +497,13 @@ func runC20(r *ev.Run) {
 		}
 		name := fmt.Sprint(sc.imgs, sc.plan)
 		st := mc.Explore(sc.bound, 200000, 1, nil, func(c *mc.Ctx, _ interface{}) {
+			if c20Blocked.Load() > 40 {
+				// every further schedule would wait for the same blocked participants; what has been seen is reported
+				c20Once.Do(func() {
+					r.NotExhaustive("interleavings stopped: participants wait for each other outside the scheduler")
+				})
+				return
+			}
 			res, trace := c20Execute(c, imgs, sc.plan, bodies)
 			r.Eval(1)
 			r.Trans(len(trace))
